@@ -96,6 +96,7 @@ def run(pid, tier, t0):
         extra["exhaustive"] = False
         extra["bounds"] = {"list_length_max": rules_alg.tier_n(), "retries_max": rules_alg.retries(),
                            "injected_panics_max": rules_alg.tier_faults(),
+                           "retry_loop_list_length_max": min(rules_alg.tier_n(), 6),
                            "data_model": "E2/L2/N1: n <= 3 leaves, every address order / every n^n address assignment; "
                                          "E1/P1 on sequences: 0, 2 and 3 elements (a const generic length is instantiated)",
                            "note": "the data-model rules (Y2/Y3/E5/X2/Q3/Q4, E2/L2/N1, E1/P1 on sequences) enumerate every abstract path "
@@ -216,8 +217,8 @@ prop("C09",
      [A("rule_Y1"), A("rule_Y2"), A("rule_Y3"), sem.rule_E2, cg.rule_E3, st.rule_E1, sig.rule_O1, sig.rule_O3],
      "Y1 exactly one blocking acquisition site per pass, every other acquisition of the pass is a try; Y2 every path from a failed "
      "try back to the blocking site passes through the rollback of the prefix and the guarded release of the first lock; Y3 the "
-     "held set is empty whenever the blocking site is reached (k-bounded held-set analysis: list length <= 3 quick / 5 thorough, <= 2 / 3 "
-     "retries, every try outcome and at most one (thorough: two) injected panics).",
+     "held set is empty whenever the blocking site is reached (k-bounded held-set analysis: list length <= 3 quick / 6 thorough, <= 2 / 4 "
+     "retries, every try outcome and at most one (thorough: three) injected panics).",
      "'nevertheless finishes': liveness under contention (the authors document possible livelock).")
 
 prop("C10",
